@@ -311,7 +311,19 @@ func genImp(r *rand.Rand, tier, id string) Case {
 	return c
 }
 
+// one large tree: more than one import batch (maxBatchSize = 10000 nodes)
+func genBigImport(r *rand.Rand, tier, id string) Case {
+	c := Case{ID: id, Kind: "m1", Params: []string{"iv=-"}, Cfgs: []string{"cache=1000,fast=true,flush=100000,sync=false,backend=memdb"}}
+	n := 5200
+	for i := 0; i < n; i++ {
+		c.Ops = append(c.Ops, []string{"set", hx([]byte(fmt.Sprintf("key%06d", r.Intn(1<<20)))), hx([]byte(strconv.Itoa(i)))})
+	}
+	c.Ops = append(c.Ops, []string{"save"}, []string{"r", "w", "size"}, []string{"expimp", "1", []string{"plain", "compress"}[r.Intn(2)], "7"})
+	return c
+}
+
 func init() {
 	runners["imp"] = runImp
 	generators["C10h"] = genImp
+	generators["C10big"] = genBigImport
 }
